@@ -28,7 +28,12 @@ var c16Shapes = []string{"LS", "LA", "LI", "TX", "TR"}
 // tuple[2] input: one row per array element although no top-level un-indexed input is selected
 // (identity: …, tx_idx, log_idx, abi_idx). world.Decl has no tuples: the components are added to the
 // rendered configuration, the logs are built with package ref and the expectation is computed here.
-var c16AllShapes = []string{"LS", "LA", "LI", "TX", "TR", "LT", "LK"}
+// LR: LS whose columns are named with reserved words (from, to, order — from/to are the column names of the
+// ERC-20 example configuration): the generated DDL must quote them on the CREATE and on the ALTER path.
+var c16AllShapes = []string{"LS", "LA", "LI", "TX", "TR", "LT", "LK", "LR"}
+
+// c16PreShapes: shapes of the pre-existing-table jobs.
+var c16PreShapes = []string{"LS", "LA", "LI", "TX", "TR", "LR"}
 
 func c16TupleDims(d *world.Decl) (int, bool) {
 	switch d.Event {
@@ -54,6 +59,13 @@ func c16TupleElems(k int) int {
 func c16Decl(shape, name, table string, srcs []world.SrcRef) *world.Decl {
 	d := &world.Decl{Name: name, Table: table, Sources: srcs}
 	switch shape {
+	case "LR":
+		d.Event = "Transfer"
+		d.Inputs = []world.Input{
+			{Name: "from", Type: "address", Indexed: true, Column: "from"},
+			{Name: "to", Type: "address", Indexed: true, Column: "to"},
+			{Name: "value", Type: "uint256", Column: "order"},
+		}
 	case "LS":
 		d.Event = "Transfer"
 		d.Inputs = []world.Input{
@@ -95,7 +107,7 @@ func c16Decl(shape, name, table string, srcs []world.SrcRef) *world.Decl {
 // c16Class names the identity class of a shape (which columns tell its rows apart).
 func c16Class(shape string) string {
 	switch shape {
-	case "LS", "LA", "LT", "LK":
+	case "LS", "LA", "LT", "LK", "LR":
 		return "log+abi"
 	case "LI":
 		return "log"
@@ -112,7 +124,7 @@ func c16Class(shape string) string {
 func c16Identity(shape string) []string {
 	id := []string{"ig_name", "src_name", "block_num", "tx_idx"}
 	switch shape {
-	case "LS", "LA", "LT", "LK":
+	case "LS", "LA", "LT", "LK", "LR":
 		id = append(id, "log_idx", "abi_idx")
 	case "LI":
 		id = append(id, "log_idx")
